@@ -1075,7 +1075,7 @@ def fault_class(fault, strict):
 
 
 def run(ck):
-    ck.lean_obligations(generated=["MbootConsts"])
+    ck.lean_obligations(generated=["MbootConsts", "SdpConsts"])
     drv = ck.driver()
     setup_runtime()
     check_generated(ck)
@@ -1091,8 +1091,10 @@ def run(ck):
               "after the operation in which a fault is consumed the link is desynchronised (the protocol has no sequence numbers): later operations of the same "
               "sequence are compared with the model but not held to the oracle",
               "receive_sb_file on a UsbDevice: the SB2/SB3.1 header sniffing for the pause point never matches the random payloads used here",
-              "BUSPAL/I2C/SPI/CAN/SDIO transports, libuuu, real timing, reset/reopen, key-provisioning/trust-provisioning/fuse operations are not covered; "
-              "SDP/SDPS are not modelled in this round")
+              "BUSPAL/I2C/SPI/CAN/SDIO transports, libuuu, real timing, reset/reopen, key-provisioning/trust-provisioning/fuse operations are not covered",
+              "SDP: thin layer only - SDPSerialProtocol + SDP (read/write/write_file/write_dcd/write_csf/skip_dcd/jump_and_run/read_status) against a small "
+              "reference ROM, strict reads; SDP over USB-HID (SDPBulkProtocol), SDPS and the HAB log/status parsing are not modelled; SDP packets carry no "
+              "checksum: corruption outside status words is undetectable by SPSDK and search-only")
     codec_stream(ck, drv)
     if drv is None:
         # model does not build: oracle only, on transcripts produced by the python reference... not available without the driver
@@ -1126,7 +1128,7 @@ def run(ck):
                    "(start/length corruption, byte deletion/insertion, dropped frame, HID payload flips); non-trivial = distinct (case, fault)")
     soft_total = 0
     n_fault = 0
-    cap = ck.budget(7000, 150000)
+    cap = ck.budget(7000, 120000)
     fi = 0
     while n_fault < cap and fi < ck.budget(400, 6000):
         # short sequences over small packets so that every position of the stream can be visited
@@ -1163,6 +1165,8 @@ def run(ck):
 
     # ---- stream 3: crafted truncations in 'partial read' mode whose shortened payload has a colliding CRC
     crafted_stream(ck, drv)
+    # ---- SDP (thin layer)
+    sdp_streams(ck, drv)
 
 
 def z2_inverse_table():
@@ -1219,9 +1223,296 @@ def crafted_stream(ck, drv):
                          "a frame cut short (colliding CRC) is accepted: read_memory reports success with partial data", res[:60])
 
 
+# ----------------------------------------------------------------------------------------------- SDP (thin layer)
+SDP_OK = {"write_file": 0x88888888, "write_dcd": 0x128A8A12, "write_csf": 0x128A8A12}
+SDP_TAG = {"write_file": 0x0404, "write_dcd": 0x0A0A, "write_csf": 0x0606}
+
+
+def sdp_op_line(op):
+    k = op["op"]
+    if k == "read":
+        return f"sdp_op read {op['addr']} {op['n']} {op['fmt']}"
+    if k == "write":
+        return f"sdp_op write {op['addr']} {op['value']} {op['count']} {op['fmt']}"
+    if k in SDP_OK:
+        return f"sdp_op {k} {op['addr']} {hx(op_data(op))}"
+    if k == "jump_and_run":
+        return f"sdp_op jump_and_run {op['addr']}"
+    return f"sdp_op {k}"
+
+
+def sdp_call(sdp, op):
+    k = op["op"]
+    if k == "read":
+        return canon_val(sdp.read(op["addr"], op["n"], op["fmt"]))
+    if k == "write":
+        return canon_val(sdp.write(op["addr"], op["value"], op["count"], op["fmt"]))
+    if k in SDP_OK:
+        return canon_val(getattr(sdp, k)(op["addr"], op_data(op)))
+    if k == "skip_dcd":
+        return canon_val(sdp.skip_dcd())
+    if k == "jump_and_run":
+        return canon_val(sdp.jump_and_run(op["addr"]))
+    if k == "read_status":
+        v = sdp.read_status()
+        return "ok:none" if v is None else f"ok:n:{v}"
+    raise ValueError(k)
+
+
+def sdp_classify(exc):
+    from spsdk.sdp.exceptions import SdpCommandError, SdpConnectionError
+    if isinstance(exc, SdpCommandError):
+        return f"E:cmd:{exc.error_value}"
+    if isinstance(exc, SdpConnectionError):
+        return "E:conn"
+    if isinstance(exc, RuntimeError) and "verif: read budget" in str(exc):
+        return "E:unbounded"
+    return "E:other"
+
+
+def sdp_run_real(ce, transcript, ops):
+    global _STUBS
+    from spsdk.sdp.protocol.serial_protocol import SDPSerialProtocol
+    from spsdk.sdp.sdp import SDP
+    if _STUBS is None:
+        _STUBS = make_stub_classes()
+    dev = _STUBS[0](transcript, False, False)
+    sdp = SDP(_proto_class(SDPSerialProtocol)(dev), cmd_exception=bool(ce))
+    out = []
+    for op in ops:
+        n0 = len(dev.tx)
+        try:
+            res = sdp_call(sdp, op)
+        except Exception as exc:  # noqa: BLE001
+            res = sdp_classify(exc)
+        out.append((res, int(sdp.status_code.tag), int(sdp.hab_status), int(sdp.cmd_status), dev.tx[n0:]))
+    return out, dev.leftover()
+
+
+def sdp_parse_answer(ans):
+    parts = ans.split(" ")
+    if len(parts) != 6:
+        return (ans, -1, -1, -1, [], [])
+    res, st, hab, cs, tx, rel = parts
+    txl = [] if tx[3:] == "." else [bytes.fromhex(w) if w != "-" else b"" for w in tx[3:].split(",")]
+    rell = [] if rel[4:] == "." else [bytes.fromhex(w) if w != "-" else b"" for w in rel[4:].split(",")]
+    return res, int(st[3:]), int(hab[4:]), int(cs[3:]), txl, rell
+
+
+def sdp_canon(res, st, hab, cs, tx):
+    return f"{res} st={st} hab={hab} cs={cs} tx=" + (",".join(hx(w) for w in tx) if tx else ".")
+
+
+class PyRom:
+    """independent re-implementation of the reference ROM's effects, fed with the real host's writes"""
+
+    def __init__(self, rom):
+        self.mem = bytearray(gen_bytes(rom["mem_seed"], rom["mem_size"]))
+        self.forced = {}
+        for i, v in rom["forced"]:
+            self.forced.setdefault(i, v)
+        self.recv = None
+        self.ncmd = 0
+        self.events = []
+
+    def feed(self, w):
+        if self.recv is not None:
+            tag, a, n, ev = self.recv
+            self.recv = None
+            if len(w) == n:
+                ev["got"] = True
+                if tag == 0x0404 and ev["forced"] is None:
+                    if a + n <= len(self.mem):
+                        self.mem[a:a + n] = w
+                    else:
+                        ev["ok"] = False
+            return
+        if len(w) != 16:
+            return
+        tag, a, fmt, cnt, val, _ = struct.unpack(">HIB2IB", w)
+        idx = self.ncmd
+        self.ncmd += 1
+        ev = {"tag": tag, "forced": self.forced.get(idx), "ok": True}
+        self.events.append(ev)
+        if tag == 0x0202:
+            nb = fmt // 8
+            if ev["forced"] is None and fmt in (8, 16, 32) and a + nb <= len(self.mem):
+                self.mem[a:a + nb] = val.to_bytes(4, "little")[:nb]
+            else:
+                ev["ok"] = ev["forced"] == 0x128A8A12
+        elif tag in (0x0404, 0x0A0A, 0x0606):
+            ev["got"] = False
+            self.recv = (tag, a, cnt, ev)
+        elif tag == 0x0101:
+            ev["ok"] = a + cnt <= len(self.mem)
+
+
+def sdp_gen_ops(rng, size, nmax=6):
+    ops = []
+    for _ in range(rng.randint(1, nmax)):
+        k = rng.choice(["read"] * 4 + ["write"] * 3 + ["write_file"] * 3 + ["write_dcd", "write_csf", "skip_dcd", "jump_and_run", "read_status"])
+        op = {"op": k}
+        if k == "read":
+            n = rng.choice([0, 1, 4, 63, 64, 65, 128, 129, rng.randrange(0, min(size, 400) + 1)])
+            n = min(n, size)
+            a = rng.randrange(0, size - n + 1)
+            if rng.random() < 0.06:
+                a = size - n + 3
+            op.update(addr=a, n=n, fmt=rng.choice([8, 16, 32]))
+        elif k == "write":
+            fmt = rng.choice([8, 16, 32, 32, 7])
+            op.update(addr=rng.choice([0, size - 4, rng.randrange(0, size - 3), size - 1]), value=rng.choice([0, 0x11223344, rng.getrandbits(32), 1 << 32]),
+                      count=rng.choice([1, 2, 4, 4, 9]), fmt=fmt)
+        elif k in SDP_OK:
+            n = rng.choice([0, 1, 64, 65, rng.randrange(0, min(size, 300) + 1)])
+            n = min(n, size)
+            op.update(addr=rng.choice([0, size - n, rng.randrange(0, size - n + 1), size - n + 2]), n=n, seed=rng.randrange(1 << 30))
+        elif k == "jump_and_run":
+            op.update(addr=rng.choice([0, rng.getrandbits(32), 1 << 32]))
+        ops.append(op)
+    return ops
+
+
+def sdp_streams(ck, drv):
+    rng = ck.rng
+    s = ck.stream("sdp_sequences", "SDP over the serial protocol (thin layer): random ROMs (memory 64..600 B, HAB locked/unlocked, forced status words) x sequences of 1..6 "
+                  "operations (read / write / write_file / write_dcd / write_csf / skip_dcd / jump_and_run / read_status; read lengths {0,1,4,63,64,65,128,129,...}), "
+                  "cmd_exception on/off; non-trivial = distinct case")
+    sf = ck.stream("sdp_faults", "short SDP sequences: the device->host stream cut at every position, every status word replaced, every byte corrupted "
+                   "(SDP has no checksum: corruption outside status words is search-only); non-trivial = distinct (case, fault)")
+    ncase = ck.budget(150, 2500)
+    nfault_cap = ck.budget(1500, 20000)
+    nf = 0
+    for ci in range(ncase):
+        size = rng.choice([64, 200, 600])
+        rom = {"mem_seed": rng.randrange(1 << 30), "mem_size": size, "locked": rng.random() < 0.3, "err": rng.choice([0xF0F0F0F0, 0x33221100]),
+               "forced": []}
+        ce = rng.random() < 0.5
+        ops = sdp_gen_ops(rng, size, 6 if ci % 3 else 2)
+        if rng.random() < 0.3:
+            fi = rng.randrange(0, len(ops))
+            # a forced word is a device *error*: never one of the OK values
+            rom["forced"] = [(fi, rng.choice([0, 0x12345678, 0xFFFFFFFF, 0xF0F0F0F0]))]
+        case = {"ce": ce, "rom": rom, "ops": ops}
+        forced = ";".join(f"{i}={v}" for i, v in rom["forced"]) or "-"
+        head = [f"sdp_cfg {int(ce)}", f"sdp_rom {hx(gen_bytes(rom['mem_seed'], size))} {int(rom['locked'])} {rom['err']} {forced}"]
+        ans = drv.batch(head + ["sdp_live"] + [sdp_op_line(o) for o in ops] + ["sdp_state"])
+        live = [sdp_parse_answer(a) for a in ans[3:-1]]
+        transcript = [c for l in live for c in l[5]]
+        writes_per_op = [len(l[4]) for l in live]
+
+        def one(fault, strict, stream):
+            t2 = [bytes(c) for c in transcript]
+            if fault is not None:
+                k, pos = fault["kind"], fault["pos"]
+                ci2, off = pos
+                if k == "truncate":
+                    t2[ci2] = t2[ci2][:off]
+                    for j in range(ci2 + 1, len(t2)):
+                        t2[j] = b""
+                elif k == "corrupt":
+                    c = bytearray(t2[ci2])
+                    c[off] ^= fault["xor"]
+                    t2[ci2] = bytes(c)
+                elif k == "status":
+                    t2[ci2] = t2[ci2][:off] + struct.pack(">I", fault["value"]) + t2[ci2][off + 4:]
+            real, leftover = sdp_run_real(ce, t2, ops)
+            mans = drv.batch([head[0], "sdp_script " + (",".join(hx(c) for c in t2) if t2 else ".")] + [sdp_op_line(o) for o in ops])
+            model = [sdp_parse_answer(a) for a in mans[2:]]
+            inp = {"sdp_case": case, "fault": fault}
+            for i, (r, m) in enumerate(zip(real, model)):
+                if not stream.compare(dict(inp, op_index=i), sdp_canon(*r), sdp_canon(*m[:5]), "SDP operation result / status / bytes written differ between SDP and the model"):
+                    break
+            rom_o = PyRom(rom)
+            fault_op = None
+            if fault is not None:
+                acc = 0
+                for i, n in enumerate(writes_per_op):
+                    acc += n
+                    if fault["pos"][0] < acc:
+                        fault_op = i
+                        break
+            for i, (op, r) in enumerate(zip(ops, real)):
+                pre = bytes(rom_o.mem)
+                ne = len(rom_o.events)
+                for w in r[4]:
+                    rom_o.feed(w)
+                evs = rom_o.events[ne:]
+                res = r[0]
+                ok = res.startswith("ok:") and res not in ("ok:none", "ok:false")
+                hold = fault is None or (strict and (fault_op is None or i <= fault_op))
+                viol = []
+                k = op["op"]
+                if ok and k == "read" and op["n"] > 0:
+                    got = bytes.fromhex(res[5:]) if res[5:] != "-" else b""
+                    if op["addr"] + op["n"] > len(pre) or got != pre[op["addr"]:op["addr"] + op["n"]]:
+                        viol.append("SDP read returns without error but not exactly the device's bytes for the requested range")
+                if ok and k == "write_file":
+                    d, a = op_data(op), op["addr"]
+                    if a + len(d) > len(pre) or bytes(rom_o.mem) != pre[:a] + d + pre[a + len(d):]:
+                        viol.append("SDP write_file reports success but the device memory does not hold exactly the written bytes")
+                if ok and k == "write" and fault is None:
+                    nb, a = op["fmt"] // 8, op["addr"]
+                    want = pre[:a] + (op["value"] & 0xFFFFFFFF).to_bytes(4, "little")[:nb] + pre[a + nb:]
+                    if op["fmt"] not in (8, 16, 32) or a + nb > len(pre) or bytes(rom_o.mem) != want:
+                        viol.append("SDP write reports success but the register/memory does not hold the value")
+                if fault is None and evs and not (k == "read" and op["n"] == 0):
+                    ev = evs[-1]
+                    exp = ev["ok"] and ev.get("got", True) and (ev["forced"] is None or ev["forced"] == {0x0404: 0x88888888}.get(ev["tag"], 0x128A8A12) or
+                                                               ev["tag"] in (0x0101, 0x0B0B, 0x0505) or (ev["tag"] == 0x0C0C and ev["forced"] == 0x900DD009))
+                    if ev["tag"] == 0x0C0C and ev["forced"] is not None and ev["forced"] != 0x900DD009:
+                        exp = False
+                    if exp and not ok:
+                        viol.append("without any fault an SDP operation the device carried out is not reported as success")
+                    if not exp and ok:
+                        viol.append("without any fault an SDP operation the device refused is reported as success")
+                if res == "E:unbounded":
+                    viol.append("the SDP operation did not finish within the bounded number of reads")
+                for v in viol:
+                    if hold:
+                        stream.expect(False, dict(inp, op_index=i), v, res[:60], None)
+            if fault is None:
+                if leftover:
+                    stream.expect(False, inp, "without any fault the SDP host left bytes of the device unread", leftover, 0)
+                want = f"mem={hx(rom_o.mem)} ncmd={rom_o.ncmd}"
+                got = " ".join(p for p in ans[-1].split(" ") if p.startswith(("mem=", "ncmd=")))
+                stream.compare(dict(inp, what="final ROM state"), want, got, "final memory of the reference ROM differs (python reference fed by SDP's writes vs Lean ROM)")
+
+        def op_of_chunk(cidx):
+            acc = 0
+            for i, n in enumerate(writes_per_op):
+                acc += n
+                if cidx < acc:
+                    return ops[i]["op"]
+            return None
+
+        one(None, True, s)
+        s.note(case, cls=f"ce={int(ce)}/locked={int(rom['locked'])}")
+        total = sum(len(c) for c in transcript)
+        if total <= 160 and nf < nfault_cap:
+            for ci2, c in enumerate(transcript):
+                for off in range(len(c) + 1):
+                    if nf >= nfault_cap:
+                        break
+                    f = {"kind": "truncate", "pos": (ci2, off)}
+                    one(f, True, sf)
+                    sf.note((case, f), cls="truncate")
+                    nf += 1
+                    if off < len(c):
+                        f = {"kind": "corrupt", "pos": (ci2, off), "xor": rng.choice([1, 0x80, 0xFF])}
+                        one(f, False, sf)
+                        sf.note((case, f), cls="corrupt(search-only)")
+                        nf += 1
+                    if off == 4 and len(c) == 8 and op_of_chunk(ci2) in ("write", "skip_dcd", "read_status", "write_file", "write_dcd", "write_csf"):
+                        f = {"kind": "status", "pos": (ci2, off), "value": rng.choice([0, 0x12345678, 0xFFFFFFFF])}
+                        one(f, True, sf)
+                        sf.note((case, f), cls="status-word")
+                        nf += 1
+
+
 def replay(ck, data):
     """Re-run the recorded failing cases (self-contained inputs) against the current tree."""
-    ck.lean_obligations(generated=["MbootConsts"])
+    ck.lean_obligations(generated=["MbootConsts", "SdpConsts"])
     drv = ck.driver()
     setup_runtime()
     s = ck.stream("replay", "cases of the replay file")
